@@ -681,10 +681,14 @@ pub(crate) mod convert {
             Section: read::UnwindSection<R>,
             Section::Offset: read::UnwindOffset<usize>,
         {
+            let code_alignment_factor = u8::try_from(from_cie.code_alignment_factor())
+                .map_err(|_| ConvertError::Write(Error::ValueTooLarge))?;
+            let data_alignment_factor = i8::try_from(from_cie.data_alignment_factor())
+                .map_err(|_| ConvertError::Write(Error::ValueTooLarge))?;
             let mut cie = CommonInformationEntry::new(
                 from_cie.encoding(),
-                from_cie.code_alignment_factor() as u8,
-                from_cie.data_alignment_factor() as i8,
+                code_alignment_factor,
+                data_alignment_factor,
                 from_cie.return_address_register(),
             );
 
@@ -735,7 +739,8 @@ pub(crate) mod convert {
         {
             let address =
                 convert_address(from_fde.initial_address()).ok_or(ConvertError::InvalidAddress)?;
-            let length = from_fde.len() as u32;
+            let length = u32::try_from(from_fde.len())
+                .map_err(|_| ConvertError::Write(Error::ValueTooLarge))?;
             let mut fde = FrameDescriptionEntry::new(address, length);
 
             match from_fde.lsda() {
@@ -788,35 +793,50 @@ pub(crate) mod convert {
                     &NoConvertDebugInfoRef,
                 )
             };
-            // TODO: validate integer type conversions
+            let too_large = || ConvertError::Write(Error::ValueTooLarge);
+            // Unsigned offset that isn't factored.
+            let unfactored = |offset: u64| i32::try_from(offset).map_err(|_| too_large());
+            // Signed factored offset.
+            let factored = |factored_offset: i64| {
+                factored_offset
+                    .checked_mul(from_cie.data_alignment_factor())
+                    .and_then(|offset| i32::try_from(offset).ok())
+                    .ok_or_else(too_large)
+            };
+            // Unsigned factored offset.
+            let factored_unsigned = |factored_offset: u64| {
+                i64::try_from(factored_offset)
+                    .map_err(|_| too_large())
+                    .and_then(factored)
+            };
             Ok(Some(match from_instruction {
                 read::CallFrameInstruction::SetLoc { .. } => {
                     return Err(ConvertError::UnsupportedCfiInstruction);
                 }
                 read::CallFrameInstruction::AdvanceLoc { delta } => {
-                    *offset += delta * from_cie.code_alignment_factor() as u32;
+                    *offset = u64::from(delta)
+                        .checked_mul(from_cie.code_alignment_factor())
+                        .and_then(|delta| delta.checked_add(u64::from(*offset)))
+                        .and_then(|offset| u32::try_from(offset).ok())
+                        .ok_or_else(too_large)?;
                     return Ok(None);
                 }
                 read::CallFrameInstruction::DefCfa { register, offset } => {
-                    CallFrameInstruction::Cfa(register, offset as i32)
+                    CallFrameInstruction::Cfa(register, unfactored(offset)?)
                 }
                 read::CallFrameInstruction::DefCfaSf {
                     register,
                     factored_offset,
-                } => {
-                    let offset = factored_offset * from_cie.data_alignment_factor();
-                    CallFrameInstruction::Cfa(register, offset as i32)
-                }
+                } => CallFrameInstruction::Cfa(register, factored(factored_offset)?),
                 read::CallFrameInstruction::DefCfaRegister { register } => {
                     CallFrameInstruction::CfaRegister(register)
                 }
 
                 read::CallFrameInstruction::DefCfaOffset { offset } => {
-                    CallFrameInstruction::CfaOffset(offset as i32)
+                    CallFrameInstruction::CfaOffset(unfactored(offset)?)
                 }
                 read::CallFrameInstruction::DefCfaOffsetSf { factored_offset } => {
-                    let offset = factored_offset * from_cie.data_alignment_factor();
-                    CallFrameInstruction::CfaOffset(offset as i32)
+                    CallFrameInstruction::CfaOffset(factored(factored_offset)?)
                 }
                 read::CallFrameInstruction::DefCfaExpression { expression } => {
                     let expression = expression.get(frame)?;
@@ -831,31 +851,19 @@ pub(crate) mod convert {
                 read::CallFrameInstruction::Offset {
                     register,
                     factored_offset,
-                } => {
-                    let offset = factored_offset as i64 * from_cie.data_alignment_factor();
-                    CallFrameInstruction::Offset(register, offset as i32)
-                }
+                } => CallFrameInstruction::Offset(register, factored_unsigned(factored_offset)?),
                 read::CallFrameInstruction::OffsetExtendedSf {
                     register,
                     factored_offset,
-                } => {
-                    let offset = factored_offset * from_cie.data_alignment_factor();
-                    CallFrameInstruction::Offset(register, offset as i32)
-                }
+                } => CallFrameInstruction::Offset(register, factored(factored_offset)?),
                 read::CallFrameInstruction::ValOffset {
                     register,
                     factored_offset,
-                } => {
-                    let offset = factored_offset as i64 * from_cie.data_alignment_factor();
-                    CallFrameInstruction::ValOffset(register, offset as i32)
-                }
+                } => CallFrameInstruction::ValOffset(register, factored_unsigned(factored_offset)?),
                 read::CallFrameInstruction::ValOffsetSf {
                     register,
                     factored_offset,
-                } => {
-                    let offset = factored_offset * from_cie.data_alignment_factor();
-                    CallFrameInstruction::ValOffset(register, offset as i32)
-                }
+                } => CallFrameInstruction::ValOffset(register, factored(factored_offset)?),
                 read::CallFrameInstruction::Register {
                     dest_register,
                     src_register,
@@ -880,7 +888,7 @@ pub(crate) mod convert {
                 read::CallFrameInstruction::RememberState => CallFrameInstruction::RememberState,
                 read::CallFrameInstruction::RestoreState => CallFrameInstruction::RestoreState,
                 read::CallFrameInstruction::ArgsSize { size } => {
-                    CallFrameInstruction::ArgsSize(size as u32)
+                    CallFrameInstruction::ArgsSize(u32::try_from(size).map_err(|_| too_large())?)
                 }
                 read::CallFrameInstruction::NegateRaState => CallFrameInstruction::NegateRaState,
                 read::CallFrameInstruction::Nop => return Ok(None),
